@@ -156,3 +156,21 @@ package literal
 //@   ensures result == s
 //@   ensures len(result.literals) < kept ==> result.partialCoverage
 //@   ensures old(s.partialCoverage) ==> result.partialCoverage
+
+// suffix extraction, concatenation step: prepending a literal and shortening to MaxLiteralLen must leave a SUFFIX of
+// prefix ++ old literal (keeping the head instead would produce a literal no match ends with)
+//@ spec func sufCat(x []byte, a []byte, b []byte) bool = len(x) <= len(a) + len(b) && (forall k :: 0 <= k && k < len(x) ==> x[k] == ite(len(a) + len(b) - len(x) + k < len(a), a[len(a) + len(b) - len(x) + k], b[len(b) - len(x) + k]))
+//@ func (*Extractor).extractSuffixes
+//@   props C17
+//@   opt safety=off
+//@   opt elems_nonnil=regexp/syntax.Regexp
+//@   requires e != nil && re != nil && e.config.MaxLiteralLen >= 0
+//@   modifies family E:literal.Literal, family E:uint8, family H:literal.Seq
+//@   loop 2: invariant suffixes != nil && e != nil && e.config.MaxLiteralLen >= 0
+//@   ensures re.Op == 3 && (re.Flags & 1) == 0 && depth <= 100 ==> result != nil && len(result.literals) == 1 && len(result.literals[0].Bytes) <= rsbLen(re.Rune) && (result.literals[0].Complete ==> len(result.literals[0].Bytes) == rsbLen(re.Rune))
+//@   loop 4: invariant 0 <= j && j <= len(lits) && suffixes != nil && len(lits) == len(suffixes.literals) && fresh(lits)
+// checked for each element when it is written (at the back edge, j already incremented)
+//@   loop 4: lemma len(lits[j-1].Bytes) <= len(prefix) + len(suffixes.literals[j-1].Bytes)
+//@   loop 4: lemma lits[j-1].Complete ==> suffixes.literals[j-1].Complete
+//@   loop 4: lemma forall k :: 0 <= k && k < len(lits[j-1].Bytes) && len(suffixes.literals[j-1].Bytes) - len(lits[j-1].Bytes) + k >= 0 ==> lits[j-1].Bytes[k] == suffixes.literals[j-1].Bytes[len(suffixes.literals[j-1].Bytes) - len(lits[j-1].Bytes) + k]
+//@   loop 4: lemma forall k :: 0 <= k && k < len(lits[j-1].Bytes) && len(suffixes.literals[j-1].Bytes) - len(lits[j-1].Bytes) + k < 0 ==> lits[j-1].Bytes[k] == prefix[len(prefix) + len(suffixes.literals[j-1].Bytes) - len(lits[j-1].Bytes) + k]
